@@ -122,14 +122,14 @@ func runC18(r *kit.Run) {
 		}
 		c18Script(r, i, r.Rng("seq", i))
 	}
-	ne := int64(r.Scale(16, 300))
+	ne := int64(r.Scale(8, 300))
 	for i := int64(0); i < ne && !r.Stopped(); i++ {
 		if !r.Mine(i) {
 			continue
 		}
 		c18EqualThenMutate(r, i, r.Rng("eqmut", i))
 	}
-	nw := int64(r.Scale(32, 200))
+	nw := int64(r.Scale(16, 200))
 	for i := int64(0); i < nw && !r.Stopped(); i++ {
 		if !r.Mine(i) {
 			continue
@@ -152,7 +152,7 @@ func runC18(r *kit.Run) {
 // next Add/Delete turned into "fatal error: concurrent map iteration and
 // map write" — process-fatal, attributed through the .cur file).
 func c18EqualThenMutate(r *kit.Run, idx int64, rng *rand.Rand) {
-	rounds := 20000
+	rounds := 10000
 	procs := []int{2, 4, 16}[rng.IntN(3)]
 	r.Eval()
 	r.Current(idx, "C18 Equal (false) on unordered sets immediately followed by Add/Delete")
@@ -191,7 +191,7 @@ func c18EqualThenMutate(r *kit.Run, idx int64, rng *rand.Rand) {
 func c18Winner(r *kit.Run, idx int64, rng *rand.Rand) {
 	G := 2 + rng.IntN(5)
 	ordered := rng.IntN(2) == 0
-	rounds := 4000
+	rounds := 3000
 	procs := 16
 	s := &dt.Set[int]{}
 	s.Synchronize()
